@@ -83,7 +83,10 @@ theorem enters_communicating (t : Trans) (c : Comm) (h : allowed t c = some .com
 for an S1F14 — the COMMACK its body carries (`none`: the body cannot be decoded).  System bytes are abstract numbers:
 the k-th S1F13 the handler creates carries the id `k`. -/
 inductive Input
-  | enable | disable | linkSelected | linkLost
+  | enable | disable
+  | linkConnected        -- the transport connection is up (the protocol's receiver thread runs: frames are written)
+  | linkSelected         -- the HSMS session is selected (the `communicating` event); connects first if there is no connection
+  | linkLost             -- the connection is closed
   | rx (s f : Nat) (w : Bool) (sys : Nat) (commack : Option Nat)
   | t3Expired | delayExpired
 deriving DecidableEq, Repr, Inhabited
@@ -110,23 +113,33 @@ def s1f13Ids : List Output → List Nat
   | .txS1F13 k :: os => k :: s1f13Ids os
   | _ :: os => s1f13Ids os
 
-/-- link state and the ids of the S1F13 written since the link was (last) selected: effect of one observed step -/
-def obsStep (acc : Bool × List Nat) (o : Obs) : Bool × List Nat :=
+/-- the link as the trace shows it: connected, selected, and the ids of the S1F13 written on the current connection -/
+structure Link where
+  connected : Bool := false
+  selected : Bool := false
+  ids : List Nat := []
+deriving DecidableEq, Repr
+
+/-- effect of one observed step on the link -/
+def obsStep (acc : Link) (o : Obs) : Link :=
   match o.input with
-  | .linkSelected => (true, (if acc.1 then acc.2 else []) ++ s1f13Ids o.outputs)
-  | .linkLost => (false, [])
-  | _ => (acc.1, if acc.1 then acc.2 ++ s1f13Ids o.outputs else acc.2)
+  | .linkConnected => if acc.connected then { acc with ids := acc.ids ++ s1f13Ids o.outputs } else ⟨true, false, s1f13Ids o.outputs⟩
+  | .linkSelected => ⟨true, true, (if acc.connected then acc.ids else []) ++ s1f13Ids o.outputs⟩
+  | .linkLost => ⟨false, false, []⟩
+  | _ => { acc with ids := if acc.connected then acc.ids ++ s1f13Ids o.outputs else acc.ids }
 
-def linkState (tr : List Obs) : Bool × List Nat := tr.foldl obsStep (false, [])
+def linkState (tr : List Obs) : Link := tr.foldl obsStep {}
 
+/-- a connection exists after the trace -/
+def isConn (tr : List Obs) : Bool := (linkState tr).connected
 /-- the link is selected after the trace -/
-def isUp (tr : List Obs) : Bool := (linkState tr).1
-/-- ids of the S1F13 written to the connection since the link was selected (empty while it is down) -/
-def onLink (tr : List Obs) : List Nat := (linkState tr).2
+def isUp (tr : List Obs) : Bool := (linkState tr).selected
+/-- ids of the S1F13 written on the current connection (empty while there is none) -/
+def onLink (tr : List Obs) : List Nat := (linkState tr).ids
 
 /-- `o`, observed after `before`, completes an S1F13/S1F14 exchange with COMMACK = 0 on the current link:
 either an inbound S1F13 was answered with S1F14/COMMACK 0, or an S1F14 with COMMACK 0 arrived whose system bytes are those
-of an S1F13 written on this link (`strict`; without `strict` the system bytes are not looked at — the shipped code). -/
+of an S1F13 written on the current connection (`strict`; without `strict` the system bytes are not looked at — the shipped code). -/
 def Completes (strict : Bool) (before : List Obs) (o : Obs) : Prop :=
   (∃ w sys c, o.input = .rx 1 13 w sys c ∧ Output.txS1F14 sys 0 ∈ o.outputs) ∨
   (∃ w sys, o.input = .rx 1 14 w sys (some 0) ∧ (strict = true → sys ∈ onLink before))
